@@ -43,16 +43,7 @@ namespace sim
   }
 
   // ------------------------------------------------------------------ C01
-  namespace
-  {
-    struct Slot
-    {
-      bool alive = false;
-      const WorldInfo *w = nullptr;
-      std::string path;
-      std::vector<ProbePoint> used;
-    };
-
+  // (Slot is declared in gen.h)
     void fill_query(Op &op, const WorldInfo &w, Slot &slot, Rng &rng, bool allow_invalid, bool allow_grains)
     {
       ProbePoint pp;
@@ -98,7 +89,6 @@ namespace sim
           op.props = {Prop{{3, static_cast<unsigned>(rng.below(static_cast<uint64_t>(w.max_comp + 2))), static_cast<unsigned>(rng.below(4))}}};
         }
     }
-  }
 
   bool gen_c01(uint64_t seed, uint64_t run, const std::string &tier, Scenario &s)
   {
@@ -834,6 +824,14 @@ namespace sim
       return gen_c01(seed, run, tier, out);
     if (property == "C07")
       return gen_c07(seed, run, tier, out);
+    if (property == "C12")
+      return gen_c12(seed, run, tier, out);
+    if (property == "C14")
+      return gen_c14(seed, run, tier, out);
+    if (property == "C17")
+      return gen_c17(seed, run, tier, out);
+    if (property == "C18")
+      return gen_c18(seed, run, tier, out);
     if (property == "C15")
       return gen_c15(seed, run, tier, out);
     if (property == "C16")
